@@ -187,7 +187,12 @@ class DnsRecordDnskey(ParsableBase, Serializable):
         parser.parse_parsable('algorithm', DnsSecAlgorithmFactory)
         parser.parse_raw('key', parser.unparsed_length)
 
-        public_key = cls.parse_key(parser['key'], parser['algorithm'])
+        if not isinstance(parser['algorithm'].value.algorithm, Signature):
+            raise InvalidValue(parser['algorithm'], cls, 'algorithm')
+        try:
+            public_key = cls.parse_key(parser['key'], parser['algorithm'])
+        except (ValueError, NotImplementedError) as e:  # key material that is not a key of that algorithm
+            six.raise_from(InvalidValue(bytes(parser['key']), cls, 'key'), e)
 
         return cls(
             parser['flags'],
